@@ -147,4 +147,14 @@ mut("C20 sub adds", [(VEC, "elements: array::from_fn(|i| self[i].ref_sub(&rhs[i]
 mut("C20 squared uses first component", [(VEC, ".fold(self.elements[0].zero(), |acc, x| acc + x.ref_mul(x))", ".fold(self.elements[0].zero(), |acc, x| acc + x.ref_mul(&self.elements[0]))")], C20="C20-b")
 mut("C20 N: commuted products", [(VEC, "                acc + left.ref_mul(right)", "                right.ref_mul(left) + acc")], C20=None)
 
+# ---- C15-e / C15-f / C08-c ----
+mut("C15 Cholesky skips exact-zero entries (fill-in ignored)", [(MAT, "            for j in i + 1..self.dim {\n                let mut entry = self[(i, j)].clone();", "            for j in i + 1..self.dim {\n                if self[(i, j)] == const_builder.zero() {\n                    continue;\n                }\n                let mut entry = self[(i, j)].clone();")], C15="C15-", C08="C08-c")
+mut("C15 Cholesky inner sum over the wrong row", [(MAT, "entry -= &q[(i, k)].ref_mul(&q[(j, k)]);", "entry -= &q[(i, k)].ref_mul(&q[(i, k)]);")], C15="C15-e", C08="C08-c")
+mut("C15 diagonal without subtraction", [(MAT, "                diagonal_entry_squared -= &q[(i, j)].ref_mul(&q[(i, j)]);", "                diagonal_entry_squared -= &q[(i, j)].ref_mul(&q[(j, j)]);")], C15="C15-e")
+mut("C15 series one power short", [(MAT, "let max_non_zero_power_of_n = self.dim - 1;", "let max_non_zero_power_of_n = self.dim - 2;")], C15="C15-e")
+mut("C15 series signs flipped", [(MAT, "                    if i % 2 == 0 {\n                        &acc - mat\n                    } else {\n                        &acc + mat\n                    }", "                    if i % 2 == 0 {\n                        &acc + mat\n                    } else {\n                        &acc - mat\n                    }")], C15="C15-e")
+mut("C15 N scaled by the column pivot", [(MAT, "            let inverse_diagonal_element = &inverse_diagonal_entries[row];\n            for col in 0..row {\n                n_matrix[(row, col)] = inverse_diagonal_element.ref_mul(&q[(row, col)]);", "            for col in 0..row {\n                n_matrix[(row, col)] = inverse_diagonal_entries[col].ref_mul(&q[(row, col)]);")], C15="C15-e")
+mut("C15 tolerance guard instead of exact zero", [(MAT, "if determinant == const_builder.zero() {", "if determinant.abs() <= const_builder.from_f64(f64::EPSILON) {")], C15="C15-f", C16=None)
+mut("C15 N: Cholesky products commuted", [(MAT, "entry -= &q[(i, k)].ref_mul(&q[(j, k)]);", "entry -= &q[(j, k)].ref_mul(&q[(i, k)]);")], C15=None, C08=None)
+
 MUTATIONS = M
